@@ -1,5 +1,6 @@
 import RsomeV.Props.C18
 import RsomeV.L.SocApproxUpper
+import RsomeV.L.SocApproxJensen
 import Mathlib.Analysis.Complex.ExponentialBounds
 
 /-! # C18 (upper direction): completeness of the blocks of `GCProg.to_socp`
@@ -15,15 +16,25 @@ auxiliary columns (the squaring chain) and the `3·(3+L)` cone columns.
   `t, x0, x1, α0, α1` iff the conclusions of `socp_block_sound_div` + `socp_block_t_nonneg` hold;
   without split (`x0 = α0 = 0`), `x3 > 0`: iff `lo·x3 ≤ x1 ≤ hi·x3` and
   `x3·P4(x1/(x3·2^L))^(2^L) ≤ x2`.
-* `socp_block_below_cut`, `socp_block_upper_cut`: below the lower cut the block only asks `x2 ≥ 0`;
-  above the upper cut it is infeasible.
-* `socp_exp_upper`, `socp_block_exp_lower_orig`, `socp_sandwich` (over `ℝ`): for `L ≥ 4`, cuts in
-  `[-4, 4]`, `x3 > 0` and `(lo+1)·x3 ≤ x1 ≤ hi·x3`:
-  `x3·exp(x1/x3)·(1+10⁻³) ≤ x2` ⟹ block satisfiable ⟹ `x3·exp(x1/x3)·(1−10⁻³) ≤ x2`.
-  `socp_lower_cut_gap`: the margin `lo + 1` cannot be replaced by `lo`.
+* `socp_block_below_cut`, `socp_block_below_cut_iff`, `socp_block_upper_cut`: below the lower cut the
+  block asks for the flat piece `elo·x3 ≤ x2` (`elo = np.exp(lo)`, the coefficient of `α0` in row 0 -
+  the repair of the lower cut); above the upper cut it is infeasible.
+* `socp_exp_upper`, `socp_block_exp_lower_orig`, `socp_block_below_cut_lower`, `socp_sandwich`,
+  `socp_lower_cut_tight` (over `ℝ`, `elo = exp lo`): for `L ≥ 4`, cuts in `[-4, 4]`, `x3 > 0`:
+  `x3·exp(x1/x3)·(1+10⁻³) ≤ x2` and `lo·x3 ≤ x1 ≤ hi·x3` ⟹ block satisfiable;
+  block satisfiable ⟹ `x3·exp(x1/x3)·(1−10⁻³) ≤ x2` for EVERY `x1` (no margin; two-point Jensen,
+  `RsomeV/L/SocApproxJensen.lean`).
+* `BlockRelOld`, `old_lower_cut_gap`, `old_lower_cut_gap'`: the relation before the repair
+  (`elo = 0`) accepts `x2 = 0` at `x1 = lo·x3`; the repaired one does not.
 * `toSocp_complete_blocks`, `toSocp_complete_P4`, `toSocp_complete`: a point feasible for the source
   program with every exponential-cone membership strengthened extends to a point feasible for
-  `toSocp P L lo hi` with the same original columns and the same objective value. -/
+  `toSocp P L lo hi elo` with the same original columns and the same objective value.
+* `toSocp_sound_orig`, `toSocp_sound`: a feasible point of `toSocp P L lo hi (exp lo)` satisfies every
+  exponential cone of `P` (with `x3 > 0`) deflated by `10⁻³`, with no condition on the exponent.
+
+Trust: the theorems over `ℝ` take the row-0 coefficient to be `Real.exp lo`; the code writes the float
+`np.exp(cut_lower)` (the value the tie `test_to_socp.py` passes exactly to the model), which is
+trusted to equal `exp(cut_lower)` to within rounding. -/
 
 set_option linter.unusedSectionVars false
 set_option linter.unusedSimpArgs false
@@ -50,23 +61,23 @@ are values of all `numCols L` block columns with these five values in columns `0
 every row, bound and rotated cone of the block (`BlockRel`).  The point is explicit:
 `f = u²/α1`, `g = (u+α1)²/α1`, `h = g²/α1` (`u = x1/2^L`), `v_d = α1·P4(x1/(α1·2^L))^(2^d)`, and the
 `q`-th cone triple is `((α1 − w_q)/2, y_q, (α1 + w_q)/2)`. -/
-theorem socp_block_complete_split (L : ℕ) (hL : 1 ≤ L) (lo hi a0 a1 a2 t x0 x1 α0 α1 : K)
-    (h0 : 0 ≤ t) (h1 : t ≤ a1) (h2 : x0 + x1 = a0) (h3 : α0 + α1 = a2) (h4 : 0 ≤ α0) (h5 : 0 ≤ α1)
+theorem socp_block_complete_split (L : ℕ) (hL : 1 ≤ L) (lo hi elo a0 a1 a2 t x0 x1 α0 α1 : K)
+    (h0 : 0 ≤ t) (h1 : t + elo * α0 ≤ a1) (h2 : x0 + x1 = a0) (h3 : α0 + α1 = a2) (h4 : 0 ≤ α0) (h5 : 0 ≤ α1)
     (h6 : x0 ≤ lo * α0) (h7 : lo * α1 ≤ x1) (h8 : x1 ≤ hi * α1)
     (h9 : 0 < α1 → α1 * P4 (x1 / (α1 * 2 ^ L)) ^ 2 ^ L ≤ t) (h10 : α1 = 0 → x1 = 0) :
-    ∃ y : ℕ → K, BlockRel L lo hi a0 a1 a2 y ∧
+    ∃ y : ℕ → K, BlockRel L lo hi elo a0 a1 a2 y ∧
       y 0 = t ∧ y 1 = x0 ∧ y 2 = x1 ∧ y 3 = α0 ∧ y 4 = α1 ∧
       (0 < α1 → ∀ d < L, y (8 + d) = α1 * P4 (x1 / (α1 * 2 ^ L)) ^ 2 ^ d) := by
   have hV : numVars L = 8 + L := by unfold numVars; omega
   refine ⟨extend L (corePt L t x0 x1 α0 α1), ?_, ?_, ?_, ?_, ?_, ?_, ?_⟩
   · apply blockRel_of_core L hL
     rcases h5.lt_or_eq with hpos | hzero
-    · apply blockCore_corePt_pos L hL lo hi a0 a1 a2 t x0 x1 α0 α1 h1 h2 h3 h4 hpos h6 h7 h8
+    · apply blockCore_corePt_pos L hL lo hi elo a0 a1 a2 t x0 x1 α0 α1 h1 h2 h3 h4 hpos h6 h7 h8
       rw [v0_div L x1 α1 (ne_of_gt hpos)]
       exact h9 hpos
     · subst hzero
       rw [h10 rfl] at h2 ⊢
-      exact blockCore_corePt_zero L hL lo hi a0 a1 a2 t x0 α0 h0 h1 (by simpa using h2)
+      exact blockCore_corePt_zero L hL lo hi elo a0 a1 a2 t x0 α0 h0 h1 (by simpa using h2)
         (by simpa using h3) h4 h6
   · rw [extend_lt _ _ _ (by omega)]; rfl
   · rw [extend_lt _ _ _ (by omega)]; rfl
@@ -82,9 +93,9 @@ inside the cuts (`lo·x3 ≤ x1 ≤ hi·x3`, rows 4-6 of the block) and with
 `x3·P4(x1/(x3·2^L))^(2^L) ≤ x2`.  Then the block is satisfiable: with `t = x2`, `x0 = α0 = 0`,
 `x1, α1 = x1, x3` and the squaring chain `v_d = x3·P4(x1/(x3·2^L))^(2^d)` all rows, bounds and
 rotated cones of the block hold. -/
-theorem socp_block_complete (L : ℕ) (hL : 1 ≤ L) (lo hi x1 x2 x3 : K) (hx3 : 0 < x3)
+theorem socp_block_complete (L : ℕ) (hL : 1 ≤ L) (lo hi elo x1 x2 x3 : K) (hx3 : 0 < x3)
     (hlo : lo * x3 ≤ x1) (hhi : x1 ≤ hi * x3) (hP : x3 * P4 (x1 / (x3 * 2 ^ L)) ^ 2 ^ L ≤ x2) :
-    ∃ y : ℕ → K, BlockRel L lo hi x1 x2 x3 y ∧
+    ∃ y : ℕ → K, BlockRel L lo hi elo x1 x2 x3 y ∧
       y 0 = x2 ∧ y 1 = 0 ∧ y 2 = x1 ∧ y 3 = 0 ∧ y 4 = x3 ∧
       ∀ d < L, y (8 + d) = x3 * P4 (x1 / (x3 * 2 ^ L)) ^ 2 ^ d := by
   have hP4 : 0 ≤ P4 (x1 / (x3 * 2 ^ L)) := by
@@ -93,76 +104,104 @@ theorem socp_block_complete (L : ℕ) (hL : 1 ≤ L) (lo hi x1 x2 x3 : K) (hx3 :
     simpa using this
   have hx2 : 0 ≤ x2 := le_trans (mul_nonneg hx3.le (pow_nonneg hP4 _)) hP
   obtain ⟨y, hy, e0, e1, e2, e3, e4, e5⟩ :=
-    socp_block_complete_split L hL lo hi x1 x2 x3 x2 0 x1 0 x3 hx2 le_rfl (zero_add _) (zero_add _)
+    socp_block_complete_split L hL lo hi elo x1 x2 x3 x2 0 x1 0 x3 hx2 (by simp) (zero_add _) (zero_add _)
       le_rfl hx3.le (by simp) hlo hhi (fun _ => hP) (fun h => absurd h (ne_of_gt hx3))
   exact ⟨y, hy, e0, e1, e2, e3, e4, e5 hx3⟩
 
 /-- **C18.5c (`socp_block_iff`, sound + complete).** For `1 ≤ L`: there is a block point with
 `BlockRel` and prescribed `t, x0, x1, α0, α1` **iff** those five values satisfy the relations of
 `socp_block_sound` / `socp_block_sound_div` / `socp_block_t_nonneg`. -/
-theorem socp_block_iff (L : ℕ) (hL : 1 ≤ L) (lo hi a0 a1 a2 t x0 x1 α0 α1 : K) :
-    (∃ y : ℕ → K, BlockRel L lo hi a0 a1 a2 y ∧
+theorem socp_block_iff (L : ℕ) (hL : 1 ≤ L) (lo hi elo a0 a1 a2 t x0 x1 α0 α1 : K) :
+    (∃ y : ℕ → K, BlockRel L lo hi elo a0 a1 a2 y ∧
       y 0 = t ∧ y 1 = x0 ∧ y 2 = x1 ∧ y 3 = α0 ∧ y 4 = α1) ↔
-    (0 ≤ t ∧ t ≤ a1 ∧ x0 + x1 = a0 ∧ α0 + α1 = a2 ∧ 0 ≤ α0 ∧ 0 ≤ α1 ∧
+    (0 ≤ t ∧ t + elo * α0 ≤ a1 ∧ x0 + x1 = a0 ∧ α0 + α1 = a2 ∧ 0 ≤ α0 ∧ 0 ≤ α1 ∧
       x0 ≤ lo * α0 ∧ lo * α1 ≤ x1 ∧ x1 ≤ hi * α1 ∧
       (0 < α1 → α1 * P4 (x1 / (α1 * 2 ^ L)) ^ 2 ^ L ≤ t) ∧ (α1 = 0 → x1 = 0)) := by
   constructor
   · rintro ⟨y, hy, rfl, rfl, rfl, rfl, rfl⟩
-    obtain ⟨-, s1, s2, s3, s4, s5, s6, s7, s8⟩ := socp_block_sound L hL lo hi a0 a1 a2 y hy
-    obtain ⟨d1, d2⟩ := socp_block_sound_div L hL lo hi a0 a1 a2 y hy
-    exact ⟨socp_block_t_nonneg L hL lo hi a0 a1 a2 y hy, s1, s2, s3, s4, s5, s6, s7, s8, d1, d2⟩
+    obtain ⟨-, s1, s2, s3, s4, s5, s6, s7, s8⟩ := socp_block_sound L hL lo hi elo a0 a1 a2 y hy
+    obtain ⟨d1, d2⟩ := socp_block_sound_div L hL lo hi elo a0 a1 a2 y hy
+    exact ⟨socp_block_t_nonneg L hL lo hi elo a0 a1 a2 y hy, s1, s2, s3, s4, s5, s6, s7, s8, d1, d2⟩
   · rintro ⟨h0, h1, h2, h3, h4, h5, h6, h7, h8, h9, h10⟩
     obtain ⟨y, hy, e0, e1, e2, e3, e4, -⟩ :=
-      socp_block_complete_split L hL lo hi a0 a1 a2 t x0 x1 α0 α1 h0 h1 h2 h3 h4 h5 h6 h7 h8 h9 h10
+      socp_block_complete_split L hL lo hi elo a0 a1 a2 t x0 x1 α0 α1 h0 h1 h2 h3 h4 h5 h6 h7 h8 h9 h10
     exact ⟨y, hy, e0, e1, e2, e3, e4⟩
 
 /-- **C18.5d.** The projection of a block on the three columns of its exponential cone: the block is
 satisfiable iff there are a split and an epigraph value as in `socp_block_iff`. -/
-theorem socp_block_iff_exists (L : ℕ) (hL : 1 ≤ L) (lo hi a0 a1 a2 : K) :
-    (∃ y : ℕ → K, BlockRel L lo hi a0 a1 a2 y) ↔
-    ∃ t x0 x1 α0 α1 : K, 0 ≤ t ∧ t ≤ a1 ∧ x0 + x1 = a0 ∧ α0 + α1 = a2 ∧ 0 ≤ α0 ∧ 0 ≤ α1 ∧
+theorem socp_block_iff_exists (L : ℕ) (hL : 1 ≤ L) (lo hi elo a0 a1 a2 : K) :
+    (∃ y : ℕ → K, BlockRel L lo hi elo a0 a1 a2 y) ↔
+    ∃ t x0 x1 α0 α1 : K, 0 ≤ t ∧ t + elo * α0 ≤ a1 ∧ x0 + x1 = a0 ∧ α0 + α1 = a2 ∧ 0 ≤ α0 ∧ 0 ≤ α1 ∧
       x0 ≤ lo * α0 ∧ lo * α1 ≤ x1 ∧ x1 ≤ hi * α1 ∧
       (0 < α1 → α1 * P4 (x1 / (α1 * 2 ^ L)) ^ 2 ^ L ≤ t) ∧ (α1 = 0 → x1 = 0) := by
   constructor
   · rintro ⟨y, hy⟩
     exact ⟨y 0, y 1, y 2, y 3, y 4,
-      (socp_block_iff L hL lo hi a0 a1 a2 _ _ _ _ _).mp ⟨y, hy, rfl, rfl, rfl, rfl, rfl⟩⟩
+      (socp_block_iff L hL lo hi elo a0 a1 a2 _ _ _ _ _).mp ⟨y, hy, rfl, rfl, rfl, rfl, rfl⟩⟩
   · rintro ⟨t, x0, x1, α0, α1, h⟩
-    obtain ⟨y, hy, -⟩ := (socp_block_iff L hL lo hi a0 a1 a2 t x0 x1 α0 α1).mpr h
+    obtain ⟨y, hy, -⟩ := (socp_block_iff L hL lo hi elo a0 a1 a2 t x0 x1 α0 α1).mpr h
     exact ⟨y, hy⟩
 
 /-- **C18.5e (no split).** For `x3 > 0`: the block is satisfiable with `x0 = α0 = 0` **iff**
 `(x1, x3)` is inside the cuts and `x3·P4(x1/(x3·2^L))^(2^L) ≤ x2`. -/
-theorem socp_block_iff_nosplit (L : ℕ) (hL : 1 ≤ L) (lo hi x1 x2 x3 : K) (hx3 : 0 < x3) :
-    (∃ y : ℕ → K, BlockRel L lo hi x1 x2 x3 y ∧ y 1 = 0 ∧ y 3 = 0) ↔
+theorem socp_block_iff_nosplit (L : ℕ) (hL : 1 ≤ L) (lo hi elo x1 x2 x3 : K) (hx3 : 0 < x3) :
+    (∃ y : ℕ → K, BlockRel L lo hi elo x1 x2 x3 y ∧ y 1 = 0 ∧ y 3 = 0) ↔
     (lo * x3 ≤ x1 ∧ x1 ≤ hi * x3 ∧ x3 * P4 (x1 / (x3 * 2 ^ L)) ^ 2 ^ L ≤ x2) := by
   constructor
   · rintro ⟨y, hy, e1, e3⟩
-    obtain ⟨-, s1, s2, s3, s4, s5, s6, s7, s8⟩ := socp_block_sound L hL lo hi x1 x2 x3 y hy
+    obtain ⟨-, s1, s2, s3, s4, s5, s6, s7, s8⟩ := socp_block_sound L hL lo hi elo x1 x2 x3 y hy
     rw [e1, zero_add] at s2
     rw [e3, zero_add] at s3
-    have hd := (socp_block_sound_div L hL lo hi x1 x2 x3 y hy).1
+    rw [e3, mul_zero, add_zero] at s1
+    have hd := (socp_block_sound_div L hL lo hi elo x1 x2 x3 y hy).1
     rw [s2, s3] at hd s7 s8
     exact ⟨s7, s8, le_trans (hd hx3) s1⟩
   · rintro ⟨h1, h2, h3⟩
-    obtain ⟨y, hy, -, e1, -, e3, -⟩ := socp_block_complete L hL lo hi x1 x2 x3 hx3 h1 h2 h3
+    obtain ⟨y, hy, -, e1, -, e3, -⟩ := socp_block_complete L hL lo hi elo x1 x2 x3 hx3 h1 h2 h3
     exact ⟨y, hy, e1, e3⟩
 
-/-- **C18.5f (below the lower cut).** If `x1 ≤ lo·x3`, `x3 ≥ 0` the block is satisfiable for every
-`x2 ≥ 0` (take `α1 = 0`, `x0 = x1`, `α0 = x3`): below the lower cut the approximation replaces
-`x3·exp(x1/x3) ≤ x2` by `0 ≤ x2`. -/
-theorem socp_block_below_cut (L : ℕ) (hL : 1 ≤ L) (lo hi x1 x2 x3 : K) (hx3 : 0 ≤ x3)
-    (hlo : x1 ≤ lo * x3) (hx2 : 0 ≤ x2) : ∃ y : ℕ → K, BlockRel L lo hi x1 x2 x3 y := by
-  obtain ⟨y, hy, -⟩ := socp_block_complete_split L hL lo hi x1 x2 x3 x2 x1 0 x3 0 hx2 le_rfl
-    (add_zero _) (add_zero _) hx3 le_rfl hlo (by simp) (by simp) (fun h => absurd h (lt_irrefl _))
-    (fun _ => rfl)
+/-- **C18.5f (below the lower cut, sufficiency).** If `x1 ≤ lo·x3`, `x3 ≥ 0` the block is satisfiable
+for every `x2 ≥ elo·x3` (take `α1 = 0`, `x0 = x1`, `α0 = x3`, `t = x2 − elo·x3`): below the lower cut
+the approximation replaces `x3·exp(x1/x3) ≤ x2` by the flat piece `exp(lo)·x3 ≤ x2`
+(`elo = np.exp(lo)`; before the repair, `elo = 0`, by `0 ≤ x2`). -/
+theorem socp_block_below_cut (L : ℕ) (hL : 1 ≤ L) (lo hi elo x1 x2 x3 : K) (hx3 : 0 ≤ x3)
+    (hlo : x1 ≤ lo * x3) (hx2 : elo * x3 ≤ x2) : ∃ y : ℕ → K, BlockRel L lo hi elo x1 x2 x3 y := by
+  obtain ⟨y, hy, -⟩ := socp_block_complete_split L hL lo hi elo x1 x2 x3 (x2 - elo * x3) x1 0 x3 0
+    (by linarith) (by linarith) (add_zero _) (add_zero _) hx3 le_rfl hlo (by simp) (by simp)
+    (fun h => absurd h (lt_irrefl _)) (fun _ => rfl)
   exact ⟨y, hy⟩
+
+/-- **C18.5f' (below the lower cut, the flat piece exactly).** The block is satisfiable with `α1 = 0`
+(everything on the piece below the cut) **iff** `x3 ≥ 0`, `x1 ≤ lo·x3` and `elo·x3 ≤ x2`.
+(Without the restriction `α1 = 0` the converse of `socp_block_below_cut` holds only up to the
+approximation error of the curve: a split may use a point `r1 ∈ [lo, hi]` of the approximated curve
+`P4(r1/2^L)^(2^L)`, which for `lo > 0` is slightly below `exp(lo)` at `r1 = lo`; over `ℝ` the bound
+that holds for every split is `socp_block_below_cut_lower`.) -/
+theorem socp_block_below_cut_iff (L : ℕ) (hL : 1 ≤ L) (lo hi elo x1 x2 x3 : K) :
+    (∃ y : ℕ → K, BlockRel L lo hi elo x1 x2 x3 y ∧ y 4 = 0) ↔
+    (0 ≤ x3 ∧ x1 ≤ lo * x3 ∧ elo * x3 ≤ x2) := by
+  constructor
+  · rintro ⟨y, hy, e4⟩
+    obtain ⟨-, s1, s2, s3, s4, s5, s6, s7, s8⟩ := socp_block_sound L hL lo hi elo x1 x2 x3 y hy
+    have h2 := (socp_block_sound_div L hL lo hi elo x1 x2 x3 y hy).2 e4
+    have ht := socp_block_t_nonneg L hL lo hi elo x1 x2 x3 y hy
+    rw [h2, add_zero] at s2
+    rw [e4, add_zero] at s3
+    rw [s2, s3] at s6
+    rw [s3] at s1 s4
+    exact ⟨s4, s6, by linarith⟩
+  · rintro ⟨h1, h2, h3⟩
+    obtain ⟨y, hy, -, -, -, -, e4, -⟩ := socp_block_complete_split L hL lo hi elo x1 x2 x3
+      (x2 - elo * x3) x1 0 x3 0
+      (by linarith) (by linarith) (add_zero _) (add_zero _) h1 le_rfl h2 (by simp) (by simp)
+      (fun h => absurd h (lt_irrefl _)) (fun _ => rfl)
+    exact ⟨y, hy, e4⟩
 
 /-- **C18.5g (above the upper cut).** A feasible block forces `x_{i0} ≤ hi·x_{i2}` (`lo ≤ hi`):
 points of the exponential cone with `x1/x3 > hi` are cut off. -/
-theorem socp_block_upper_cut (L : ℕ) (hL : 1 ≤ L) (lo hi a0 a1 a2 : K) (hlh : lo ≤ hi) (y : ℕ → K)
-    (h : BlockRel L lo hi a0 a1 a2 y) : a0 ≤ hi * a2 := by
-  obtain ⟨-, -, s2, s3, s4, s5, s6, s7, s8⟩ := socp_block_sound L hL lo hi a0 a1 a2 y h
+theorem socp_block_upper_cut (L : ℕ) (hL : 1 ≤ L) (lo hi elo a0 a1 a2 : K) (hlh : lo ≤ hi) (y : ℕ → K)
+    (h : BlockRel L lo hi elo a0 a1 a2 y) : a0 ≤ hi * a2 := by
+  obtain ⟨-, -, s2, s3, s4, s5, s6, s7, s8⟩ := socp_block_sound L hL lo hi elo a0 a1 a2 y h
   have := mul_le_mul_of_nonneg_right hlh s4
   rw [← s2, ← s3, mul_add]
   linarith
@@ -172,90 +211,125 @@ theorem socp_block_upper_cut (L : ℕ) (hL : 1 ≤ L) (lo hi a0 a1 a2 : K) (hlh 
 /-- **C18.6a (`socp_exp_upper`).** Over `ℝ`, `L ≥ 4`: if `x3 > 0`, `(x1, x3)` is inside the cuts, the
 exponent is in the range `|x1/x3| ≤ 4` and `x3·exp(x1/x3)·(1 + 10⁻³) ≤ x2`, then the block of the
 cone is satisfiable (without split): the approximation is never tighter than the exponential cone
-inflated by `10⁻³`. -/
-theorem socp_exp_upper (L : ℕ) (hL : 4 ≤ L) (lo hi x1 x2 x3 : ℝ) (hx3 : 0 < x3)
+inflated by `10⁻³` (for every value of the coefficient `elo`: the point has `α0 = 0`). -/
+theorem socp_exp_upper (L : ℕ) (hL : 4 ≤ L) (lo hi elo x1 x2 x3 : ℝ) (hx3 : 0 < x3)
     (hlo : lo * x3 ≤ x1) (hhi : x1 ≤ hi * x3) (hr : |x1 / x3| ≤ 4)
     (hE : x3 * Real.exp (x1 / x3) * (1 + 1 / 1000) ≤ x2) :
-    ∃ y : ℕ → ℝ, BlockRel L lo hi x1 x2 x3 y ∧ y 1 = 0 ∧ y 3 = 0 := by
+    ∃ y : ℕ → ℝ, BlockRel L lo hi elo x1 x2 x3 y ∧ y 1 = 0 ∧ y 3 = 0 := by
   have hw : (2 : ℝ) ^ L * (x1 / (x3 * 2 ^ L)) = x1 / x3 := by
     field_simp
   have ht := (taylor4_pow_close_two_pow L hL (x1 / (x3 * 2 ^ L)) (by rw [hw]; exact hr)).2
   rw [hw] at ht
   have h1 := mul_le_mul_of_nonneg_left ht hx3.le
-  exact (socp_block_iff_nosplit L (by omega) lo hi x1 x2 x3 hx3).mpr ⟨hlo, hhi, by linarith⟩
+  exact (socp_block_iff_nosplit L (by omega) lo hi elo x1 x2 x3 hx3).mpr ⟨hlo, hhi, by linarith⟩
 
-/-- **C18.6b (lower bound in the original columns).** Over `ℝ`, `L ≥ 4`, cuts inside `[-4, 4]`:
-a feasible block of a cone with `x3 > 0` and `x1/x3 ≥ lo + 1` enforces
-`(1 − 10⁻³)·x3·exp(x1/x3) ≤ x2`, whatever split `x1 = x0 + x1'`, `x3 = α0 + α1` the block point uses
-(`socp_exp_lower` bounds `α1·exp(x1'/α1)` of the split; the margin `+1` is what makes the split
-harmless: `α1·exp(x1'/α1) ≥ exp(r)·(α1 + (r − lo)·α0)` for `r = x1/x3`). -/
+/-- **C18.6b₀ (lower bound in the original columns, generic coefficient).** As
+`socp_block_exp_lower_orig`, for any row-0 coefficient `elo ≥ (1 − 10⁻³)·exp(lo)` (so the statement
+covers the float `np.exp(lo)` as long as it is within `10⁻³` relative of `exp(lo)` from below; the
+instance `elo = exp(lo)` is `socp_block_exp_lower_orig`). -/
+theorem socp_block_exp_lower_orig_of_le (L : ℕ) (hL : 4 ≤ L) (lo hi elo a0 a1 a2 : ℝ) (hlo : -4 ≤ lo)
+    (hhi : hi ≤ 4) (helo : (1 - 1 / 1000) * Real.exp lo ≤ elo) (y : ℕ → ℝ)
+    (h : BlockRel L lo hi elo a0 a1 a2 y) (ha2 : 0 < a2) :
+    (1 - 1 / 1000) * (a2 * Real.exp (a0 / a2)) ≤ a1 := by
+  obtain ⟨-, s1, s2, s3, s4, s5, s6, s7, s8⟩ :=
+    socp_block_sound L (by omega) lo hi elo a0 a1 a2 y h
+  have hz := (socp_block_sound_div L (by omega) lo hi elo a0 a1 a2 y h).2
+  have ht := socp_block_t_nonneg L (by omega) lo hi elo a0 a1 a2 y h
+  have hδ : (0 : ℝ) ≤ 1 - 1 / 1000 := by norm_num
+  -- `elo·α0 ≥ (1 − 10⁻³)·exp(lo)·α0`
+  have h2 : (1 - 1 / 1000 : ℝ) * (y 3 * Real.exp lo) ≤ elo * y 3 := by
+    have := mul_le_mul_of_nonneg_right helo s4
+    linarith
+  rcases s5.lt_or_eq with hpos | hzero
+  · -- `α1 > 0`
+    have hl := socp_block_exp_lower L hL lo hi elo a0 a1 a2 hlo hhi y h hpos
+    have ha : a0 ≤ y 3 * lo + y 2 := by
+      rw [← s2]; linarith
+    have hj := exp_persp_split (y 3) (y 4) lo (y 2) a0 s4 hpos ha
+    rw [s3] at hj
+    have h1 := mul_le_mul_of_nonneg_left hj hδ
+    linarith
+  · -- `α1 = 0`: everything on the flat piece
+    have h2' := hz hzero.symm
+    rw [h2', add_zero] at s2
+    rw [← hzero, add_zero] at s3
+    rw [s2, s3] at s6
+    rw [s3] at s1 h2
+    have hr : a0 / a2 ≤ lo := by
+      rw [div_le_iff₀ ha2]; exact s6
+    have he : Real.exp (a0 / a2) ≤ Real.exp lo := Real.exp_le_exp.mpr hr
+    have h3 : (1 - 1 / 1000 : ℝ) * (a2 * Real.exp (a0 / a2)) ≤ (1 - 1 / 1000) * (a2 * Real.exp lo) :=
+      mul_le_mul_of_nonneg_left (mul_le_mul_of_nonneg_left he ha2.le) hδ
+    linarith
+
+/-- **C18.6b (lower bound in the original columns, no margin).** Over `ℝ`, `L ≥ 4`, cuts inside
+`[-4, 4]`, row 0 of the block `t + exp(lo)·α0 ≤ x2` (the repaired `to_socp`; the float `np.exp(lo)`
+the code writes is trusted to be `exp(lo)` to within rounding): a feasible block of a cone with
+`x3 > 0` enforces `(1 − 10⁻³)·x3·exp(x1/x3) ≤ x2`, for EVERY exponent `x1/x3` (below the cut, inside
+the cuts; above `hi` the block is infeasible, `socp_block_upper_cut`) and whatever split
+`x1 = x0 + x1'`, `x3 = α0 + α1` the block point uses.
+
+Proof: `t ≥ (1 − 10⁻³)·α1·exp(x1'/α1)` (`socp_block_exp_lower`), so
+`x2 ≥ (1 − 10⁻³)·(α1·exp(x1'/α1) + α0·exp(lo))`; two-point Jensen for `exp` (`exp_persp_split`) and
+`x1 ≤ lo·α0 + x1'` give `α0·exp(lo) + α1·exp(x1'/α1) ≥ x3·exp(x1/x3)`.  If `α1 = 0` then `x1 ≤ lo·x3`
+and `x2 ≥ exp(lo)·x3 ≥ x3·exp(x1/x3)`.
+
+Before the repair (`elo = 0`) this needed the margin `(lo + 1)·x3 ≤ x1`, and fails without it:
+`old_lower_cut_gap`. -/
 theorem socp_block_exp_lower_orig (L : ℕ) (hL : 4 ≤ L) (lo hi a0 a1 a2 : ℝ) (hlo : -4 ≤ lo)
-    (hhi : hi ≤ 4) (y : ℕ → ℝ) (h : BlockRel L lo hi a0 a1 a2 y) (ha2 : 0 < a2)
-    (hm : (lo + 1) * a2 ≤ a0) : (1 - 1 / 1000) * (a2 * Real.exp (a0 / a2)) ≤ a1 := by
-  obtain ⟨-, s1, s2, s3, s4, s5, s6, s7, s8⟩ := socp_block_sound L (by omega) lo hi a0 a1 a2 y h
-  have hz := (socp_block_sound_div L (by omega) lo hi a0 a1 a2 y h).2
-  -- `α1 > 0`
-  have hpos : 0 < y 4 := by
-    rcases s5.lt_or_eq with hp | hzero
-    · exact hp
-    · exfalso
-      have h2 := hz hzero.symm
-      rw [h2, add_zero] at s2
-      rw [← hzero, add_zero] at s3
-      rw [s2, s3] at s6
-      nlinarith
-  have hl := socp_block_exp_lower L hL lo hi a0 a1 a2 hlo hhi y h hpos
-  set r := a0 / a2 with hr
-  have hr0 : a0 = r * a2 := by rw [hr]; field_simp
-  have hrlo : 1 ≤ r - lo := by
-    have : lo + 1 ≤ r := by rw [hr, le_div_iff₀ ha2]; exact hm
-    linarith
-  -- `x1' ≥ r·α1 + (r − lo)·α0`
-  have hx1 : r * y 4 + (r - lo) * y 3 ≤ y 2 := by
-    have : y 2 = r * (y 3 + y 4) - y 1 := by rw [s3, ← hr0]; linarith
-    nlinarith
-  set z := (r - lo) * y 3 / y 4 with hzdef
-  have hz0 : 0 ≤ z := div_nonneg (mul_nonneg (by linarith) s4) hpos.le
-  have hq : r + z ≤ y 2 / y 4 := by
-    rw [le_div_iff₀ hpos, hzdef]
-    have : (r + (r - lo) * y 3 / y 4) * y 4 = r * y 4 + (r - lo) * y 3 := by field_simp
-    rw [this]; exact hx1
-  have he1 : Real.exp r * (1 + z) ≤ Real.exp (y 2 / y 4) := by
-    calc Real.exp r * (1 + z) ≤ Real.exp r * Real.exp z :=
-          mul_le_mul_of_nonneg_left (by linarith [Real.add_one_le_exp z]) (Real.exp_pos r).le
-      _ = Real.exp (r + z) := (Real.exp_add r z).symm
-      _ ≤ Real.exp (y 2 / y 4) := Real.exp_le_exp.mpr hq
-  have he2 : a2 * Real.exp r ≤ y 4 * Real.exp (y 2 / y 4) := by
-    have h3 : y 4 * (Real.exp r * (1 + z)) ≤ y 4 * Real.exp (y 2 / y 4) :=
-      mul_le_mul_of_nonneg_left he1 hpos.le
-    have h4 : y 4 * (Real.exp r * (1 + z)) = Real.exp r * (y 4 + (r - lo) * y 3) := by
-      rw [hzdef]; field_simp
-    have h5 : Real.exp r * (y 3 + y 4) ≤ Real.exp r * (y 4 + (r - lo) * y 3) := by
-      apply mul_le_mul_of_nonneg_left _ (Real.exp_pos r).le
-      nlinarith
-    rw [← s3]
-    linarith
-  have : (1 - 1 / 1000 : ℝ) * (a2 * Real.exp r) ≤ (1 - 1 / 1000) * (y 4 * Real.exp (y 2 / y 4)) :=
-    mul_le_mul_of_nonneg_left he2 (by norm_num)
-  linarith
+    (hhi : hi ≤ 4) (y : ℕ → ℝ) (h : BlockRel L lo hi (Real.exp lo) a0 a1 a2 y) (ha2 : 0 < a2) :
+    (1 - 1 / 1000) * (a2 * Real.exp (a0 / a2)) ≤ a1 :=
+  socp_block_exp_lower_orig_of_le L hL lo hi (Real.exp lo) a0 a1 a2 hlo hhi
+    (by have := Real.exp_pos lo; linarith) y h ha2
 
-/-- **C18.6c (`socp_sandwich`).** Over `ℝ`, `L ≥ 4`, cuts `-4 ≤ lo`, `hi ≤ 4`, and a cone with
-`x3 > 0` whose exponent `r = x1/x3` lies in `[lo + 1, hi]`:
+/-- **C18.6b' (the flat piece, every split).** Over `ℝ` (hypotheses of `socp_block_exp_lower_orig`):
+every feasible block enforces `(1 − 10⁻³)·exp(lo)·x3 ≤ x2`, whatever the split and whatever `x1`
+(the approximated curve on `[lo, hi]` is `≥ (1 − 10⁻³)·exp(lo)`, the piece below the cut is
+`exp(lo)`).  With `socp_block_below_cut` this describes the block below the cut (`x1 ≤ lo·x3`):
+`exp(lo)·x3 ≤ x2` ⟹ satisfiable ⟹ `(1 − 10⁻³)·exp(lo)·x3 ≤ x2`.  (An exact "iff `exp(lo)·x3 ≤ x2`"
+holds for block points with `α1 = 0`, `socp_block_below_cut_iff`; with `α1 > 0` the point `r1 = lo`
+of the curve may be used, whose approximated value is within `10⁻³` of `exp(lo)`, not equal.) -/
+theorem socp_block_below_cut_lower (L : ℕ) (hL : 4 ≤ L) (lo hi a0 a1 a2 : ℝ) (hlo : -4 ≤ lo)
+    (hhi : hi ≤ 4) (y : ℕ → ℝ) (h : BlockRel L lo hi (Real.exp lo) a0 a1 a2 y) :
+    (1 - 1 / 1000) * (Real.exp lo * a2) ≤ a1 := by
+  obtain ⟨-, s1, s2, s3, s4, s5, s6, s7, s8⟩ :=
+    socp_block_sound L (by omega) lo hi (Real.exp lo) a0 a1 a2 y h
+  have ht := socp_block_t_nonneg L (by omega) lo hi (Real.exp lo) a0 a1 a2 y h
+  have he0 : 0 ≤ Real.exp lo * y 3 := mul_nonneg (Real.exp_pos lo).le s4
+  have h2 : (1 - 1 / 1000 : ℝ) * (Real.exp lo * y 3) ≤ Real.exp lo * y 3 := by nlinarith
+  rcases s5.lt_or_eq with hpos | hzero
+  · have hl := socp_block_exp_lower L hL lo hi (Real.exp lo) a0 a1 a2 hlo hhi y h hpos
+    have hr : lo ≤ y 2 / y 4 := by rw [le_div_iff₀ hpos]; exact s7
+    have he : Real.exp lo ≤ Real.exp (y 2 / y 4) := Real.exp_le_exp.mpr hr
+    have h3 : (1 - 1 / 1000 : ℝ) * (Real.exp lo * y 4) ≤ (1 - 1 / 1000) * (y 4 * Real.exp (y 2 / y 4)) := by
+      apply mul_le_mul_of_nonneg_left _ (by norm_num)
+      have := mul_le_mul_of_nonneg_left he hpos.le
+      linarith
+    rw [← s3, mul_add, mul_add]
+    linarith
+  · rw [← s3, ← hzero, add_zero]
+    linarith
+
+/-- **C18.6c (`socp_sandwich`, whole range).** Over `ℝ`, `L ≥ 4`, cuts `-4 ≤ lo`, `hi ≤ 4`, row 0 with
+the coefficient `exp(lo)`, and a cone with `x3 > 0` whose exponent `r = x1/x3` lies in `[lo, hi]`
+(the whole range between the cuts; before the repair: `[lo + 1, hi]`):
 
 * (upper) `x3·exp(x1/x3)·(1 + 10⁻³) ≤ x2` ⟹ the block of `to_socp` is satisfiable;
 * (lower) the block is satisfiable ⟹ `x3·exp(x1/x3)·(1 − 10⁻³) ≤ x2`;
 * the least `x2` the un-split block accepts, `B = x3·P4(x1/(x3·2^L))^(2^L)`, satisfies
   `x3·exp(x1/x3)·(1 − 10⁻³) ≤ B ≤ x3·exp(x1/x3)·(1 + 10⁻³)`.
 
-So on that range the set the approximation describes lies between the exponential cone deflated and
-inflated by `10⁻³` in the `x2` coordinate. -/
+So between the cuts the set the approximation describes lies between the exponential cone deflated
+and inflated by `10⁻³` in the `x2` coordinate.  (The lower half holds for every `x1`, see
+`socp_block_exp_lower_orig`.) -/
 theorem socp_sandwich (L : ℕ) (hL : 4 ≤ L) (lo hi x1 x3 : ℝ) (hlo : -4 ≤ lo) (hhi : hi ≤ 4)
-    (hx3 : 0 < x3) (hm : (lo + 1) * x3 ≤ x1) (hh : x1 ≤ hi * x3) :
-    (∀ x2, x3 * Real.exp (x1 / x3) * (1 + 1 / 1000) ≤ x2 → ∃ y : ℕ → ℝ, BlockRel L lo hi x1 x2 x3 y) ∧
-    (∀ x2, (∃ y : ℕ → ℝ, BlockRel L lo hi x1 x2 x3 y) → x3 * Real.exp (x1 / x3) * (1 - 1 / 1000) ≤ x2) ∧
+    (hx3 : 0 < x3) (hl : lo * x3 ≤ x1) (hh : x1 ≤ hi * x3) :
+    (∀ x2, x3 * Real.exp (x1 / x3) * (1 + 1 / 1000) ≤ x2 →
+      ∃ y : ℕ → ℝ, BlockRel L lo hi (Real.exp lo) x1 x2 x3 y) ∧
+    (∀ x2, (∃ y : ℕ → ℝ, BlockRel L lo hi (Real.exp lo) x1 x2 x3 y) →
+      x3 * Real.exp (x1 / x3) * (1 - 1 / 1000) ≤ x2) ∧
     x3 * Real.exp (x1 / x3) * (1 - 1 / 1000) ≤ x3 * P4 (x1 / (x3 * 2 ^ L)) ^ 2 ^ L ∧
     x3 * P4 (x1 / (x3 * 2 ^ L)) ^ 2 ^ L ≤ x3 * Real.exp (x1 / x3) * (1 + 1 / 1000) := by
-  have hl : lo * x3 ≤ x1 := by nlinarith
   have hr : |x1 / x3| ≤ 4 := by
     rw [abs_le]
     constructor
@@ -267,25 +341,66 @@ theorem socp_sandwich (L : ℕ) (hL : 4 ≤ L) (lo hi x1 x3 : ℝ) (hlo : -4 ≤
   rw [hw] at ht
   refine ⟨?_, ?_, ?_, ?_⟩
   · intro x2 h2
-    obtain ⟨y, hy, -⟩ := socp_exp_upper L hL lo hi x1 x2 x3 hx3 hl hh hr h2
+    obtain ⟨y, hy, -⟩ := socp_exp_upper L hL lo hi (Real.exp lo) x1 x2 x3 hx3 hl hh hr h2
     exact ⟨y, hy⟩
   · rintro x2 ⟨y, hy⟩
-    have := socp_block_exp_lower_orig L hL lo hi x1 x2 x3 hlo hhi y hy hx3 hm
+    have := socp_block_exp_lower_orig L hL lo hi x1 x2 x3 hlo hhi y hy hx3
     linarith
   · have := mul_le_mul_of_nonneg_left ht.1 hx3.le
     linarith
   · have := mul_le_mul_of_nonneg_left ht.2 hx3.le
     linarith
 
-/-- **C18.6d (the margin is needed).** At the lower cut itself (`x1 = lo·x3`) the block is
-satisfiable with `x2 = 0`, although `x3·exp(lo) > 0`: the lower half of `socp_sandwich` does not hold
-with `lo` in place of `lo + 1` (the bound that does hold for the split is `socp_exp_lower`). -/
-theorem socp_lower_cut_gap (L : ℕ) (hL : 1 ≤ L) (lo hi x3 : ℝ) (hx3 : 0 < x3) :
-    (∃ y : ℕ → ℝ, BlockRel L lo hi (lo * x3) 0 x3 y) ∧
+/-- **C18.6d (`socp_lower_cut_tight`).** At the lower cut itself (`x1 = lo·x3`, `x3 > 0`) the repaired
+block forces `x3·exp(lo)·(1 − 10⁻³) ≤ x2` (positive counterpart of `old_lower_cut_gap`), and it is
+satisfiable as soon as `exp(lo)·x3 ≤ x2`. -/
+theorem socp_lower_cut_tight (L : ℕ) (hL : 4 ≤ L) (lo hi x2 x3 : ℝ) (hlo : -4 ≤ lo) (hhi : hi ≤ 4)
+    (hx3 : 0 < x3) :
+    ((∃ y : ℕ → ℝ, BlockRel L lo hi (Real.exp lo) (lo * x3) x2 x3 y) →
+      x3 * Real.exp lo * (1 - 1 / 1000) ≤ x2) ∧
+    (Real.exp lo * x3 ≤ x2 → ∃ y : ℕ → ℝ, BlockRel L lo hi (Real.exp lo) (lo * x3) x2 x3 y) := by
+  constructor
+  · rintro ⟨y, hy⟩
+    have := socp_block_exp_lower_orig L hL lo hi (lo * x3) x2 x3 hlo hhi y hy hx3
+    have e : lo * x3 / x3 = lo := by field_simp
+    rw [e] at this
+    linarith
+  · intro h
+    exact socp_block_below_cut L (by omega) lo hi (Real.exp lo) (lo * x3) x2 x3 hx3.le le_rfl h
+
+/-- the relations of one block of `to_socp` BEFORE the repair: row 0 is `t ≤ x_{i1}`, i.e. `BlockRel`
+with the coefficient `elo = 0` of `α0` -/
+abbrev BlockRelOld (L : ℕ) (lo hi a0 a1 a2 : K) (y : ℕ → K) : Prop := BlockRel L lo hi 0 a0 a1 a2 y
+
+lemma blockRelOld_epi (L : ℕ) (lo hi a0 a1 a2 : K) (y : ℕ → K) (h : BlockRelOld L lo hi a0 a1 a2 y) :
+    y 0 ≤ a1 := by
+  have := h.epi
+  simpa using this
+
+/-- **C18.6e (`old_lower_cut_gap`, the defect the repair removes).** For the OLD block relation
+(`elo = 0`: row 0 is `t ≤ x2`): at the lower cut itself (`x1 = lo·x3`) the block is satisfiable with
+`x2 = 0`, although `x3·exp(lo) > 0`: the lower half of `socp_sandwich` does not hold for the old
+relation with `lo` in place of `lo + 1`; with user cuts inside `[-4, 4]` exponents in `[lo, lo+1)`,
+inside the cut-off range, were under-approximated by up to 100 %. -/
+theorem old_lower_cut_gap (L : ℕ) (hL : 1 ≤ L) (lo hi x3 : ℝ) (hx3 : 0 < x3) :
+    (∃ y : ℕ → ℝ, BlockRel L lo hi 0 (lo * x3) 0 x3 y) ∧
     ¬ (x3 * Real.exp (lo * x3 / x3) * (1 - 1 / 1000) ≤ 0) := by
-  refine ⟨socp_block_below_cut L hL lo hi (lo * x3) 0 x3 hx3.le le_rfl le_rfl, ?_⟩
+  refine ⟨socp_block_below_cut L hL lo hi 0 (lo * x3) 0 x3 hx3.le le_rfl (by simp), ?_⟩
   have : 0 < x3 * Real.exp (lo * x3 / x3) * (1 - 1 / 1000) := by
     have := Real.exp_pos (lo * x3 / x3)
+    positivity
+  linarith
+
+/-- the same for `BlockRelOld`, and the contrast: the repaired relation is NOT satisfiable there -/
+theorem old_lower_cut_gap' (L : ℕ) (hL : 4 ≤ L) (lo hi x3 : ℝ) (hlo : -4 ≤ lo) (hhi : hi ≤ 4)
+    (hx3 : 0 < x3) :
+    (∃ y : ℕ → ℝ, BlockRelOld L lo hi (lo * x3) 0 x3 y) ∧
+    ¬ ∃ y : ℕ → ℝ, BlockRel L lo hi (Real.exp lo) (lo * x3) 0 x3 y := by
+  refine ⟨(old_lower_cut_gap L (by omega) lo hi x3 hx3).1, ?_⟩
+  intro hb
+  have h := (socp_lower_cut_tight L hL lo hi 0 x3 hlo hhi hx3).1 hb
+  have : 0 < x3 * Real.exp lo * (1 - 1 / 1000) := by
+    have := Real.exp_pos lo
     positivity
   linarith
 
@@ -295,16 +410,16 @@ theorem socp_lower_cut_gap (L : ℕ) (hL : 1 ≤ L) (lo hi x3 : ℝ) (hx3 : 0 < 
 are triples of existing columns and whose second-order cones index existing columns.  If `x` is
 feasible for `P` with exponential-cone predicate `E`, and `E a0 a1 a2` implies that the block of
 `to_socp` for the values `(a0, a1, a2)` is satisfiable, then there is `z`, equal to `x` on the
-original columns, that is feasible for `toSocp P L lo hi` (which has no exponential cone left), with
+original columns, that is feasible for `toSocp P L lo hi elo` (which has no exponential cone left), with
 the same objective value. -/
-theorem toSocp_complete_blocks (P : ConeProg K) (L : ℕ) (hL : 1 ≤ L) (lo hi : K) (hx : XOk P)
+theorem toSocp_complete_blocks (P : ConeProg K) (L : ℕ) (hL : 1 ≤ L) (lo hi elo : K) (hx : XOk P)
     (hq : ∀ q ∈ P.qmat, ∀ j ∈ q, j < P.lp.nc) (E E' : K → K → K → Prop)
-    (hE : ∀ a0 a1 a2, E a0 a1 a2 → ∃ y : ℕ → K, BlockRel L lo hi a0 a1 a2 y)
+    (hE : ∀ a0 a1 a2, E a0 a1 a2 → ∃ y : ℕ → K, BlockRel L lo hi elo a0 a1 a2 y)
     (x : ℕ → K) (hf : P.Feas E x) :
-    ∃ z : ℕ → K, (∀ j < P.lp.nc, z j = x j) ∧ (toSocp P L lo hi).Feas E' z ∧
-      (toSocp P L lo hi).lp.obj z = P.lp.obj x := by
+    ∃ z : ℕ → K, (∀ j < P.lp.nc, z j = x j) ∧ (toSocp P L lo hi elo).Feas E' z ∧
+      (toSocp P L lo hi elo).lp.obj z = P.lp.obj x := by
   have hex : ∀ k, ∃ y : ℕ → K, k < P.xmat.length →
-      BlockRel L lo hi (x ((P.xmat.getD k []).getD 0 0)) (x ((P.xmat.getD k []).getD 1 0))
+      BlockRel L lo hi elo (x ((P.xmat.getD k []).getD 0 0)) (x ((P.xmat.getD k []).getD 1 0))
         (x ((P.xmat.getD k []).getD 2 0)) y := by
     intro k
     by_cases hk : k < P.xmat.length
@@ -315,8 +430,8 @@ theorem toSocp_complete_blocks (P : ConeProg K) (L : ℕ) (hL : 1 ≤ L) (lo hi 
     · exact ⟨fun _ => 0, fun h => absurd h hk⟩
   choose Y hY using hex
   refine ⟨glue P L x Y, glue_lt P L x Y, ?_, ?_⟩
-  · exact toSocp_feas_of_blocks P L hL lo hi hx hq x hf.lin hf.soc Y hY E'
-  · rw [(socp_carry_row P L lo hi _).2]
+  · exact toSocp_feas_of_blocks P L hL lo hi elo hx hq x hf.lin hf.soc Y hY E'
+  · rw [(socp_carry_row P L lo hi elo _).2]
     unfold LinProg.obj
     apply Finset.sum_congr rfl
     intro j hj
@@ -325,16 +440,16 @@ theorem toSocp_complete_blocks (P : ConeProg K) (L : ℕ) (hL : 1 ≤ L) (lo hi 
 /-- **C18.7b (program completeness, Taylor form, every linear ordered field).** Every point feasible
 for `P` with each exponential-cone membership `x3·exp(x1/x3) ≤ x2` replaced by
 `x3 > 0`, `lo·x3 ≤ x1 ≤ hi·x3`, `x3·P4(x1/(x3·2^L))^(2^L) ≤ x2` extends to a feasible point of
-`toSocp P L lo hi`. -/
-theorem toSocp_complete_P4 (P : ConeProg K) (L : ℕ) (hL : 1 ≤ L) (lo hi : K) (hx : XOk P)
+`toSocp P L lo hi elo`. -/
+theorem toSocp_complete_P4 (P : ConeProg K) (L : ℕ) (hL : 1 ≤ L) (lo hi elo : K) (hx : XOk P)
     (hq : ∀ q ∈ P.qmat, ∀ j ∈ q, j < P.lp.nc) (E' : K → K → K → Prop) (x : ℕ → K)
     (hf : P.Feas (fun x1 x2 x3 => 0 < x3 ∧ lo * x3 ≤ x1 ∧ x1 ≤ hi * x3 ∧
       x3 * P4 (x1 / (x3 * 2 ^ L)) ^ 2 ^ L ≤ x2) x) :
-    ∃ z : ℕ → K, (∀ j < P.lp.nc, z j = x j) ∧ (toSocp P L lo hi).Feas E' z ∧
-      (toSocp P L lo hi).lp.obj z = P.lp.obj x := by
-  apply toSocp_complete_blocks P L hL lo hi hx hq _ E' _ x hf
+    ∃ z : ℕ → K, (∀ j < P.lp.nc, z j = x j) ∧ (toSocp P L lo hi elo).Feas E' z ∧
+      (toSocp P L lo hi elo).lp.obj z = P.lp.obj x := by
+  apply toSocp_complete_blocks P L hL lo hi elo hx hq _ E' _ x hf
   rintro a0 a1 a2 ⟨h1, h2, h3, h4⟩
-  obtain ⟨y, hy, -⟩ := socp_block_complete L hL lo hi a0 a1 a2 h1 h2 h3 h4
+  obtain ⟨y, hy, -⟩ := socp_block_complete L hL lo hi elo a0 a1 a2 h1 h2 h3 h4
   exact ⟨y, hy⟩
 
 /-- the exponential cone (rsome's ordering `x3·exp(x1/x3) ≤ x2`, `x3 > 0`) inflated by `10⁻³`,
@@ -346,17 +461,19 @@ def ExpStrong (lo hi : ℝ) (x1 x2 x3 : ℝ) : Prop :=
 /-- **C18.7c (`toSocp_complete`).** Over `ℝ`, `L ≥ 4`: every point `x` feasible for the exact program
 `P` with each exponential-cone membership strengthened to `ExpStrong`
 (`x3·exp(x1/x3)·(1 + 10⁻³) ≤ x2`, inside the cuts, `|x1/x3| ≤ 4`) extends to a point `z` feasible for
-`toSocp P L lo hi`, with `z = x` on the original columns and the same objective value.  Since
-`ExpStrong` implies the exact membership, `x` is in particular feasible for the exact program: the
-optimal value of the approximation is at most that of the `10⁻³`-strengthened exact program. -/
-theorem toSocp_complete (P : ConeProg ℝ) (L : ℕ) (hL : 4 ≤ L) (lo hi : ℝ) (hx : XOk P)
+`toSocp P L lo hi elo` (every value of the row-0 coefficient `elo`, in particular `exp lo` and the
+float `np.exp(lo)`: the extension uses no split, `α0 = 0`), with `z = x` on the original columns and
+the same objective value.  Since `ExpStrong` implies the exact membership, `x` is in particular
+feasible for the exact program: the optimal value of the approximation is at most that of the
+`10⁻³`-strengthened exact program. -/
+theorem toSocp_complete (P : ConeProg ℝ) (L : ℕ) (hL : 4 ≤ L) (lo hi elo : ℝ) (hx : XOk P)
     (hq : ∀ q ∈ P.qmat, ∀ j ∈ q, j < P.lp.nc) (E' : ℝ → ℝ → ℝ → Prop) (x : ℕ → ℝ)
     (hf : P.Feas (ExpStrong lo hi) x) :
-    ∃ z : ℕ → ℝ, (∀ j < P.lp.nc, z j = x j) ∧ (toSocp P L lo hi).Feas E' z ∧
-      (toSocp P L lo hi).lp.obj z = P.lp.obj x := by
-  apply toSocp_complete_blocks P L (by omega) lo hi hx hq _ E' _ x hf
+    ∃ z : ℕ → ℝ, (∀ j < P.lp.nc, z j = x j) ∧ (toSocp P L lo hi elo).Feas E' z ∧
+      (toSocp P L lo hi elo).lp.obj z = P.lp.obj x := by
+  apply toSocp_complete_blocks P L (by omega) lo hi elo hx hq _ E' _ x hf
   rintro a0 a1 a2 ⟨h1, h2, h3, h4, h5⟩
-  obtain ⟨y, hy, -⟩ := socp_exp_upper L hL lo hi a0 a1 a2 h1 h2 h3 h4 h5
+  obtain ⟨y, hy, -⟩ := socp_exp_upper L hL lo hi elo a0 a1 a2 h1 h2 h3 h4 h5
   exact ⟨y, hy⟩
 
 /-- `ExpStrong` is a strengthening of the exact membership `x3·exp(x1/x3) ≤ x2`, `x3 > 0`. -/
@@ -367,36 +484,65 @@ theorem ExpStrong.exact (lo hi x1 x2 x3 : ℝ) (h : ExpStrong lo hi x1 x2 x3) :
   have : 0 ≤ x3 * Real.exp (x1 / x3) := mul_nonneg h1.le (Real.exp_pos _).le
   linarith
 
-/-- whole-program version of the lower direction in the original columns (companion of
-`toSocp_complete`): a point feasible for `toSocp P L lo hi` (`L ≥ 4`, cuts in `[-4, 4]`) satisfies,
-for every exponential cone `[i0, i1, i2]` of `P` with `x_{i2} > 0` and `x_{i0} ≥ (lo+1)·x_{i2}`,
-the exact membership deflated by `10⁻³`. -/
+/-- **C18.7d (`toSocp_sound_orig`, whole program, no condition on the exponent).** A point feasible
+for `toSocp P L lo hi (exp lo)` (`L ≥ 4`, cuts inside `[-4, 4]`; the repaired `to_socp`, the float
+`np.exp(lo)` trusted to within rounding) satisfies, for every exponential cone `[i0, i1, i2]` of `P`
+with `x_{i2} > 0`, the exact membership deflated by `10⁻³`:
+`(1 − 10⁻³)·x_{i2}·exp(x_{i0}/x_{i2}) ≤ x_{i1}` — with NO condition on the exponent
+(before the repair: only for `x_{i0} ≥ (lo+1)·x_{i2}`). -/
 theorem toSocp_sound_orig (P : ConeProg ℝ) (L : ℕ) (hL : 4 ≤ L) (lo hi : ℝ) (hlo : -4 ≤ lo)
     (hhi : hi ≤ 4) (hx : XOk P) (E : ℝ → ℝ → ℝ → Prop) (x : ℕ → ℝ)
-    (hf : (toSocp P L lo hi).Feas E x) (k : ℕ) (hk : k < P.xmat.length)
-    (h3 : 0 < x ((P.xmat.getD k []).getD 2 0))
-    (hm : (lo + 1) * x ((P.xmat.getD k []).getD 2 0) ≤ x ((P.xmat.getD k []).getD 0 0)) :
+    (hf : (toSocp P L lo hi (Real.exp lo)).Feas E x) (k : ℕ) (hk : k < P.xmat.length)
+    (h3 : 0 < x ((P.xmat.getD k []).getD 2 0)) :
     (1 - 1 / 1000) * (x ((P.xmat.getD k []).getD 2 0) *
       Real.exp (x ((P.xmat.getD k []).getD 0 0) / x ((P.xmat.getD k []).getD 2 0))) ≤
       x ((P.xmat.getD k []).getD 1 0) :=
   socp_block_exp_lower_orig L hL lo hi _ _ _ hlo hhi _
-    (socp_feas_block P L (by omega) lo hi hx E x hf k hk) h3 hm
+    (socp_feas_block P L (by omega) lo hi (Real.exp lo) hx E x hf k hk) h3
+
+/-- **C18.7e (whole program, everything a feasible point of the repaired approximation satisfies).**
+`x` feasible for `toSocp P L lo hi (exp lo)`, `L ≥ 4`, `-4 ≤ lo ≤ hi ≤ 4`: `x` satisfies the rows,
+bounds and second-order cones of `P`, and for every exponential cone `[i0, i1, i2]` of `P`:
+`x_{i2} ≥ 0`, `x_{i0} ≤ hi·x_{i2}`, `(1 − 10⁻³)·exp(lo)·x_{i2} ≤ x_{i1}`, and if `x_{i2} > 0` the
+membership deflated by `10⁻³`, `(1 − 10⁻³)·x_{i2}·exp(x_{i0}/x_{i2}) ≤ x_{i1}`. -/
+theorem toSocp_sound (P : ConeProg ℝ) (L : ℕ) (hL : 4 ≤ L) (lo hi : ℝ) (hlo : -4 ≤ lo)
+    (hhi : hi ≤ 4) (hlh : lo ≤ hi) (hx : XOk P) (E : ℝ → ℝ → ℝ → Prop) (x : ℕ → ℝ)
+    (hf : (toSocp P L lo hi (Real.exp lo)).Feas E x) :
+    P.lp.Feas x ∧ (∀ q ∈ P.qmat, socMem x q) ∧
+    ∀ k < P.xmat.length,
+      0 ≤ x ((P.xmat.getD k []).getD 2 0) ∧
+      x ((P.xmat.getD k []).getD 0 0) ≤ hi * x ((P.xmat.getD k []).getD 2 0) ∧
+      (1 - 1 / 1000) * (Real.exp lo * x ((P.xmat.getD k []).getD 2 0)) ≤
+        x ((P.xmat.getD k []).getD 1 0) ∧
+      (0 < x ((P.xmat.getD k []).getD 2 0) →
+        (1 - 1 / 1000) * (x ((P.xmat.getD k []).getD 2 0) *
+          Real.exp (x ((P.xmat.getD k []).getD 0 0) / x ((P.xmat.getD k []).getD 2 0))) ≤
+          x ((P.xmat.getD k []).getD 1 0)) := by
+  obtain ⟨h1, h2⟩ := socp_carry_feas P L lo hi (Real.exp lo) E x hf
+  refine ⟨h1, h2, ?_⟩
+  intro k hk
+  have hb := socp_feas_block P L (by omega) lo hi (Real.exp lo) hx E x hf k hk
+  obtain ⟨-, s1, s2, s3, s4, s5, -⟩ := socp_block_sound L (by omega) _ _ _ _ _ _ _ hb
+  refine ⟨by rw [← s3]; linarith, socp_block_upper_cut L (by omega) _ _ _ _ _ _ hlh _ hb,
+    socp_block_below_cut_lower L hL lo hi _ _ _ hlo hhi _ hb, ?_⟩
+  intro h3
+  exact socp_block_exp_lower_orig L hL lo hi _ _ _ hlo hhi _ hb h3
 
 /-! ### 4. concrete instances -/
 
-/-- `L = 1`, cuts `(-1, 1)`, cone values `(x1, x2, x3) = (0, 1, 1)`: `1·P4(0)² = 1 ≤ 1`, so the block
-is satisfiable (compare the hand-written point `C18.exY`) -/
-example : ∃ y : ℕ → ℚ, BlockRel 1 (-1) 1 0 1 1 y := by
-  obtain ⟨y, hy, -⟩ := socp_block_complete 1 le_rfl (-1) 1 (0 : ℚ) 1 1 (by norm_num) (by norm_num)
-    (by norm_num) (by norm_num [P4])
+/-- `L = 1`, cuts `(-1, 1)`, `elo = 3/8`, cone values `(x1, x2, x3) = (0, 1, 1)`: `1·P4(0)² = 1 ≤ 1`, so
+the block is satisfiable (compare the hand-written point `C18.exY`) -/
+example : ∃ y : ℕ → ℚ, BlockRel 1 (-1) 1 (3 / 8) 0 1 1 y := by
+  obtain ⟨y, hy, -⟩ := socp_block_complete 1 le_rfl (-1) 1 (3 / 8) (0 : ℚ) 1 1 (by norm_num)
+    (by norm_num) (by norm_num) (by norm_num [P4])
   exact ⟨y, hy⟩
 
 /-- `L = 2`, cuts `(-2, 2)`, `(x1, x2, x3) = (1, 11/4, 1)`: `P4(1/4)⁴ = (7889/6144)⁴ ≈ 2.71828 ≤ 2.75`,
 and the chain values are `v_0 = 7889/6144`, `v_1 = (7889/6144)²` -/
-example : ∃ y : ℕ → ℚ, BlockRel 2 (-2) 2 1 (11 / 4) 1 y ∧ y 8 = 7889 / 6144 ∧
+example : ∃ y : ℕ → ℚ, BlockRel 2 (-2) 2 (1 / 8) 1 (11 / 4) 1 y ∧ y 8 = 7889 / 6144 ∧
     y 9 = (7889 / 6144) ^ 2 := by
-  obtain ⟨y, hy, -, -, -, -, -, hv⟩ := socp_block_complete 2 (by norm_num) (-2) 2 (1 : ℚ) (11 / 4) 1
-    (by norm_num) (by norm_num) (by norm_num) (by norm_num [P4])
+  obtain ⟨y, hy, -, -, -, -, -, hv⟩ := socp_block_complete 2 (by norm_num) (-2) 2 (1 / 8) (1 : ℚ)
+    (11 / 4) 1 (by norm_num) (by norm_num) (by norm_num) (by norm_num [P4])
   refine ⟨y, hy, ?_, ?_⟩
   · have := hv 0 (by norm_num)
     rw [this]; norm_num [P4]
@@ -404,28 +550,38 @@ example : ∃ y : ℕ → ℚ, BlockRel 2 (-2) 2 1 (11 / 4) 1 y ∧ y 8 = 7889 /
     rw [this]; norm_num [P4]
 
 /-- the iff at work: with `x2 = 27/10 < P4(1/4)⁴` the un-split block is NOT satisfiable -/
-example : ¬ ∃ y : ℕ → ℚ, BlockRel 2 (-2) 2 1 (27 / 10) 1 y ∧ y 1 = 0 ∧ y 3 = 0 := by
-  rw [socp_block_iff_nosplit 2 (by norm_num) (-2) 2 (1 : ℚ) (27 / 10) 1 (by norm_num)]
+example : ¬ ∃ y : ℕ → ℚ, BlockRel 2 (-2) 2 (1 / 8) 1 (27 / 10) 1 y ∧ y 1 = 0 ∧ y 3 = 0 := by
+  rw [socp_block_iff_nosplit 2 (by norm_num) (-2) 2 (1 / 8) (1 : ℚ) (27 / 10) 1 (by norm_num)]
   norm_num [P4]
 
-/-- below the lower cut (`x1/x3 = -3 < -2`) the block accepts `x2 = 0` -/
-example : ∃ y : ℕ → ℚ, BlockRel 2 (-2) 2 (-3) 0 1 y :=
-  socp_block_below_cut 2 (by norm_num) (-2) 2 (-3) 0 1 (by norm_num) (by norm_num) le_rfl
+/-- below the lower cut (`x1/x3 = -3 < -2`), `elo = 1/8 ≈ exp(-2)`: the block accepts `x2 = 1/8` … -/
+example : ∃ y : ℕ → ℚ, BlockRel 2 (-2) 2 (1 / 8) (-3) (1 / 8) 1 y :=
+  socp_block_below_cut 2 (by norm_num) (-2) 2 (1 / 8) (-3) (1 / 8) 1 (by norm_num) (by norm_num)
+    (by norm_num)
+
+/-- … but on the flat piece (`α1 = 0`) no longer `x2 = 0` (`socp_block_below_cut_iff`), which the old
+relation (`elo = 0`) accepted -/
+example : (¬ ∃ y : ℕ → ℚ, BlockRel 2 (-2) 2 (1 / 8) (-3) 0 1 y ∧ y 4 = 0) ∧
+    ∃ y : ℕ → ℚ, BlockRelOld 2 (-2) 2 (-3) 0 1 y ∧ y 4 = 0 := by
+  constructor
+  · rw [socp_block_below_cut_iff 2 (by norm_num) (-2) 2 (1 / 8) (-3 : ℚ) 0 1]
+    norm_num
+  · exact (socp_block_below_cut_iff 2 (by norm_num) (-2) 2 0 (-3 : ℚ) 0 1).mpr (by norm_num)
 
 /-- `socp_exp_upper` with numbers: `L = 4`, cuts `(-4, 4)`, `(x1, x2, x3) = (1, 3, 1)`:
 `exp(1)·1.001 ≤ 2.7182818286·1.001 < 3` -/
-example : ∃ y : ℕ → ℝ, BlockRel 4 (-4) 4 1 3 1 y := by
-  obtain ⟨y, hy, -⟩ := socp_exp_upper 4 le_rfl (-4) 4 1 3 1 (by norm_num) (by norm_num) (by norm_num)
-    (by norm_num) (by
+example : ∃ y : ℕ → ℝ, BlockRel 4 (-4) 4 (Real.exp (-4)) 1 3 1 y := by
+  obtain ⟨y, hy, -⟩ := socp_exp_upper 4 le_rfl (-4) 4 (Real.exp (-4)) 1 3 1 (by norm_num)
+    (by norm_num) (by norm_num) (by norm_num) (by
       have := Real.exp_one_lt_d9
       norm_num
       linarith)
   exact ⟨y, hy⟩
 
-/-- `socp_sandwich` with numbers: `L = 4`, cuts `(-4, 4)`, `x1 = 2`, `x3 = 1` (`r = 2 ∈ [-3, 4]`) -/
+/-- `socp_sandwich` with numbers: `L = 4`, cuts `(-4, 4)`, `x1 = 2`, `x3 = 1` (`r = 2 ∈ [-4, 4]`) -/
 example (x2 : ℝ) :
-    (Real.exp 2 * (1 + 1 / 1000) ≤ x2 → ∃ y : ℕ → ℝ, BlockRel 4 (-4) 4 2 x2 1 y) ∧
-    ((∃ y : ℕ → ℝ, BlockRel 4 (-4) 4 2 x2 1 y) → Real.exp 2 * (1 - 1 / 1000) ≤ x2) := by
+    (Real.exp 2 * (1 + 1 / 1000) ≤ x2 → ∃ y : ℕ → ℝ, BlockRel 4 (-4) 4 (Real.exp (-4)) 2 x2 1 y) ∧
+    ((∃ y : ℕ → ℝ, BlockRel 4 (-4) 4 (Real.exp (-4)) 2 x2 1 y) → Real.exp 2 * (1 - 1 / 1000) ≤ x2) := by
   obtain ⟨h1, h2, -, -⟩ := socp_sandwich 4 le_rfl (-4) 4 2 1 (by norm_num) (by norm_num)
     (by norm_num) (by norm_num) (by norm_num)
   constructor
@@ -433,6 +589,27 @@ example (x2 : ℝ) :
     exact h1 x2 (by simpa using h)
   · intro h
     simpa using h2 x2 h
+
+/-- `socp_sandwich` with numbers inside the former gap: `x1 = -7/2`, `x3 = 1`
+(`r = -3.5 ∈ [lo, lo + 1) = [-4, -3)`): the repaired block enforces `exp(-3.5)·(1 − 10⁻³) ≤ x2` -/
+example (x2 : ℝ) :
+    (Real.exp (-7 / 2) * (1 + 1 / 1000) ≤ x2 →
+      ∃ y : ℕ → ℝ, BlockRel 4 (-4) 4 (Real.exp (-4)) (-7 / 2) x2 1 y) ∧
+    ((∃ y : ℕ → ℝ, BlockRel 4 (-4) 4 (Real.exp (-4)) (-7 / 2) x2 1 y) →
+      Real.exp (-7 / 2) * (1 - 1 / 1000) ≤ x2) := by
+  obtain ⟨h1, h2, -, -⟩ := socp_sandwich 4 le_rfl (-4) 4 (-7 / 2) 1 (by norm_num) (by norm_num)
+    (by norm_num) (by norm_num) (by norm_num)
+  constructor
+  · intro h
+    exact h1 x2 (by simpa using h)
+  · intro h
+    simpa using h2 x2 h
+
+/-- the hypotheses of `socp_lower_cut_tight` / `old_lower_cut_gap'` are satisfiable: `L = 4`, cuts
+`(-4, 4)`, `x3 = 1`: the old block accepts `(x1, x2, x3) = (-4, 0, 1)`, the repaired one does not -/
+example : (∃ y : ℕ → ℝ, BlockRelOld 4 (-4) 4 (-4 * 1) 0 1 y) ∧
+    ¬ ∃ y : ℕ → ℝ, BlockRel 4 (-4) 4 (Real.exp (-4)) (-4 * 1) 0 1 y :=
+  old_lower_cut_gap' 4 le_rfl (-4) 4 1 le_rfl le_rfl one_pos
 
 /-- the source program of `C18.exP` over `ℝ`: one row `x1 + x2 ≤ 3`, four columns, the cone `[0, 1]`
 and the exponential cone `[1, 2, 3]`, cost `x0` -/
@@ -444,9 +621,9 @@ noncomputable def exPR : ConeProg ℝ :=
 
 /-- `toSocp_complete` with numbers: the point `x = (0, 0, 2, 1)` (row `0 + 2 ≤ 3`, cone `|0| ≤ 0`,
 exponential cone `1·exp(0/1)·1.001 = 1.001 ≤ 2`) extends to a feasible point of
-`toSocp exPR 4 (-4) 4` (a program with `1 + 28` rows and `4 + 33` columns) with objective `0` -/
-example : ∃ z : ℕ → ℝ, z 0 = 0 ∧ z 1 = 0 ∧ z 2 = 2 ∧ z 3 = 1 ∧
-    (toSocp exPR 4 (-4) 4).Feas (fun _ _ _ => True) z ∧ (toSocp exPR 4 (-4) 4).lp.obj z = 0 := by
+`toSocp exPR 4 (-4) 4 (Real.exp (-4))` (a program with `1 + 28` rows and `4 + 33` columns) with objective `0` -/
+theorem exPR_point : ∃ z : ℕ → ℝ, z 0 = 0 ∧ z 1 = 0 ∧ z 2 = 2 ∧ z 3 = 1 ∧
+    (toSocp exPR 4 (-4) 4 (Real.exp (-4))).Feas (fun _ _ _ => True) z ∧ (toSocp exPR 4 (-4) 4 (Real.exp (-4))).lp.obj z = 0 := by
   set x : ℕ → ℝ := fun j => if j = 2 then 2 else if j = 3 then 1 else 0 with hxdef
   have hok : XOk exPR := by
     intro e he
@@ -475,7 +652,7 @@ example : ∃ z : ℕ → ℝ, z 0 = 0 ∧ z 1 = 0 ∧ z 2 = 2 ∧ z 3 = 1 ∧
       subst he
       simp [ExpStrong, hxdef]
       norm_num
-  obtain ⟨z, hz, hfz, hobj⟩ := toSocp_complete exPR 4 le_rfl (-4) 4 hok hq (fun _ _ _ => True) x hf
+  obtain ⟨z, hz, hfz, hobj⟩ := toSocp_complete exPR 4 le_rfl (-4) 4 (Real.exp (-4)) hok hq (fun _ _ _ => True) x hf
   refine ⟨z, ?_, ?_, ?_, ?_, hfz, ?_⟩
   · rw [hz 0 (by simp [exPR])]; simp [hxdef]
   · rw [hz 1 (by simp [exPR])]; simp [hxdef]
@@ -483,5 +660,20 @@ example : ∃ z : ℕ → ℝ, z 0 = 0 ∧ z 1 = 0 ∧ z 2 = 2 ∧ z 3 = 1 ∧
   · rw [hz 3 (by simp [exPR])]; simp [hxdef]
   · rw [hobj]
     simp [exPR, LinProg.obj, Finset.sum_range_succ, hxdef]
+
+/-- `toSocp_sound_orig` is not vacuous: at the feasible point above, the cone `[1, 2, 3]` of `exPR`
+(`x3 = z 3 = 1 > 0`) satisfies `(1 − 10⁻³)·z3·exp(z1/z3) ≤ z2` -/
+example : ∃ z : ℕ → ℝ, (toSocp exPR 4 (-4) 4 (Real.exp (-4))).Feas (fun _ _ _ => True) z ∧
+    (1 - 1 / 1000) * (z 3 * Real.exp (z 1 / z 3)) ≤ z 2 := by
+  obtain ⟨z, -, -, -, h3, hf, -⟩ := exPR_point
+  refine ⟨z, hf, ?_⟩
+  have hok : XOk exPR := by
+    intro e he
+    simp [exPR] at he
+    subst he
+    simp [exPR]
+  have := toSocp_sound_orig exPR 4 le_rfl (-4) 4 le_rfl le_rfl hok _ z hf 0 (by simp [exPR])
+    (by simp [exPR, h3])
+  simpa [exPR] using this
 
 end RsomeV.C18Upper
